@@ -366,6 +366,19 @@ func drawC15(t *rapid.T) caseC15 {
 			at := rapid.IntRange(0, len(inv.Files)).Draw(t, "stdinat")
 			inv.Files = append(inv.Files[:at], append([]string{"-"}, inv.Files[at:]...)...)
 		}
+		if rapid.IntRange(0, 19).Draw(t, "nooperand") == 0 {
+			// no operand at all: standard input to standard output
+			inv.Files, needDD = nil, false
+			var members []string
+			for _, f := range c.Files {
+				if f.Kind != "dir" {
+					members = append(members, f.Name)
+				}
+			}
+			if len(members) > 0 {
+				inv.Stdin = rapid.SampledFrom(members).Draw(t, "stdinfrom0")
+			}
+		}
 		inv.DashDash = needDD || rapid.IntRange(0, 4).Draw(t, "dd") == 0
 		for range inv.Flags {
 			inv.FlagPos = append(inv.FlagPos, rapid.IntRange(0, len(inv.Files)).Draw(t, "flagpos"))
@@ -613,7 +626,11 @@ func stepModel(model map[string]*node, inv invC15, stdin *node) expectC15 {
 	all := inv.opts()
 	e := expectC15{stdoutExact: true, usesStdout: all.stdout}
 	fail := func() { e.exit = 1 }
-	for _, name := range inv.Files {
+	operands := inv.Files
+	if len(operands) == 0 {
+		operands = []string{"-"} // "With no file, or when FILE is -, read standard input"
+	}
+	for _, name := range operands {
 		o := all
 		n := model[name]
 		if name == "-" {
@@ -838,6 +855,9 @@ func checkC15(c caseC15, rec *ev.Rec) *ev.Failure {
 		rec.Class("flags="+flagSet(inv), fmt.Sprintf("exit=%d", min(code, 1)), fmt.Sprintf("files=%d", len(inv.Files)))
 		if inv.DashDash {
 			rec.Class("dashdash")
+		}
+		if len(inv.Files) == 0 {
+			rec.Class("no_operand")
 		}
 		for _, n := range inv.Files {
 			if n == "-" {
